@@ -13,7 +13,8 @@
                               checks: type-only => match, pattern => value.(string) panics)
      MapEveryDescriptor       every selected descriptor gets a mapping         (code: maps each unique VC to the first
                               descriptor having it as candidate, so a descriptor sharing a VC is dropped)
-     MaxBoundsSelection       max=0 selects nothing, min>max is unsatisfiable  (code: max=0 takes all, min>max takes max)
+     MaxBoundsSelection       max=0 selects nothing, min>max is unsatisfiable  (code before the repairs of F9f/F9g: max=0
+                              took all, min>max took max; TRUE in the descriptive configuration since)
      ResolveChecksEveryEntry  verifier checks every descriptor_map entry       (code: last entry per id wins)
      WalletNormalises         the wallet re-matches its own selection until it is reproduced (code: one pass; the
                               verifier re-runs the greedy first-match on the PRESENTED order and may pick otherwise)
